@@ -632,7 +632,8 @@ def spell_line(cfg, uses, rng, style=None, group_flags=True):
 
 # ---------------------------------------------------------------- scenario serialisation
 
-def scenario_text(sid, tag, cfg, argv, prog="prog"):
+def scenario_text(sid, tag, cfg, argv, prog="prog", as_string=None):
+    """as_string: (text, program name or None) - the arguments are handed over as one string (evalArgumentString)"""
     L = ["S %s %s" % (sid, tag)]
     if cfg.groups is None:
         # 'list argument groups' only exists for handlers of a group
@@ -757,7 +758,10 @@ def scenario_text(sid, tag, cfg, argv, prog="prog"):
         res.append("P %s %s" % (hx(p), hx(c)))
     for n, v in cfg.env:
         res.append("E %s %s" % (hx(n), hx(v)))
-    res.append("V " + " ".join(hx(w) for w in [prog] + list(argv)))
+    if as_string is not None:
+        res.append("VS " + hx(as_string[0]) + ("" if as_string[1] is None else " " + hx(as_string[1])))
+    else:
+        res.append("V " + " ".join(hx(w) for w in [prog] + list(argv)))
     res.append("R")
     return "\n".join(res) + "\n"
 
@@ -798,6 +802,8 @@ _interp_exe = {}
 
 
 def interp_exe(flavour="asan"):
+    if os.environ.get("VERIF_INTERP_EXE"):          # development only: lib/devtools/coverage.py
+        return os.environ["VERIF_INTERP_EXE"]
     if flavour not in _interp_exe:
         _interp_exe[flavour] = vc.build_harness("argh_interp", ["argh_interp.cpp"], flavour,
                                                 extra_ldflags=["-Wl,--wrap=exit"])
